@@ -134,3 +134,137 @@ def expand(node, defs, depth=3, keep=()):
     """Copy of `node` with once-assigned local names replaced by their defining expressions."""
     import copy
     return ast.fix_missing_locations(_Expander(defs, depth, set(keep)).visit(copy.deepcopy(node)))
+
+
+# ---------------------------------------------------------------------------- symbolic return cases / linear forms
+def parse_sx(txt):
+    try:
+        return ast.parse(txt, mode='eval').body
+    except SyntaxError:
+        return None
+
+
+def linear(node, atoms):
+    """node == sum(coef[a] * a for a in atoms) + const, with literal coefficients: returns ({atom: coef}, const) or None.
+    Atoms are matched by the canonical text of a sub-expression."""
+    zero = {a: 0.0 for a in atoms}
+
+    def lit(n):
+        if isinstance(n, ast.Constant) and isinstance(n.value, (int, float)) and not isinstance(n.value, bool):
+            return float(n.value)
+        return None
+
+    def lin(n):
+        t = norm_text(n)
+        if t in atoms:
+            c = dict(zero)
+            c[t] = 1.0
+            return c, 0.0
+        v = lit(n)
+        if v is not None:
+            return dict(zero), v
+        if isinstance(n, ast.UnaryOp) and isinstance(n.op, (ast.USub, ast.UAdd)):
+            a = lin(n.operand)
+            if a is None:
+                return None
+            s = -1.0 if isinstance(n.op, ast.USub) else 1.0
+            return {k: s * x for k, x in a[0].items()}, s * a[1]
+        if isinstance(n, ast.BinOp):
+            a, b = lin(n.left), lin(n.right)
+            if a is None or b is None:
+                return None
+            if isinstance(n.op, (ast.Add, ast.Sub)):
+                s = 1.0 if isinstance(n.op, ast.Add) else -1.0
+                return {k: a[0][k] + s * b[0][k] for k in atoms}, a[1] + s * b[1]
+            if isinstance(n.op, ast.Mult):
+                if not any(a[0].values()):
+                    return {k: a[1] * b[0][k] for k in atoms}, a[1] * b[1]
+                if not any(b[0].values()):
+                    return {k: b[1] * a[0][k] for k in atoms}, a[1] * b[1]
+                return None
+            if isinstance(n.op, ast.Div) and not any(b[0].values()) and b[1] != 0:
+                return {k: a[0][k] / b[1] for k in atoms}, a[1] / b[1]
+        return None
+
+    return lin(node)
+
+
+def _split_cases(expr, conds):
+    if isinstance(expr, ast.IfExp):
+        return _split_cases(expr.body, conds + [(expr.test, True)]) + _split_cases(expr.orelse, conds + [(expr.test, False)])
+    return [(conds, expr)]
+
+
+def _atomic(conds):
+    """Push polarities through `not`, and split and/or where they decompose into a conjunction."""
+    out = []
+    for t, pol in conds:
+        while isinstance(t, ast.UnaryOp) and isinstance(t.op, ast.Not):
+            t, pol = t.operand, not pol
+        if isinstance(t, ast.BoolOp) and ((isinstance(t.op, ast.And) and pol) or (isinstance(t.op, ast.Or) and not pol)):
+            out.extend(_atomic([(v, pol) for v in t.values]))
+        else:
+            out.append((t, pol))
+    return out
+
+
+def return_cases(it, fi, cfg):
+    """Every way the function returns a value: list of (return statement, [(condition expr, polarity)], value expr), with the
+    conditions and values given as expressions over the function's inputs (local names replaced by what they stand for)."""
+    out = []
+    for nid, r in cfg.returns():
+        if r.value is None:
+            continue
+        conds = []
+        for t, pol in cfg.guards(nid):
+            e = parse_sx(it.sx(t))
+            if e is not None:
+                conds.append((e, pol))
+        v = parse_sx(it.sx(r.value))
+        if v is None:
+            out.append((r, _atomic(conds), None))
+            continue
+        for cs, e in _split_cases(v, conds):
+            out.append((r, _atomic(cs), e))
+    return out
+
+
+_NEG = {ast.Lt: ast.GtE, ast.LtE: ast.Gt, ast.Gt: ast.LtE, ast.GtE: ast.Lt}
+
+
+def nonneg_form(test, pol, atoms):
+    """A comparison (with polarity) as `sum(coef * atom) + const >= 0` (strictness ignored): ({atom: coef}, const) or None."""
+    if not (isinstance(test, ast.Compare) and len(test.ops) == 1):
+        return None
+    op = type(test.ops[0])
+    if op not in _NEG:
+        return None
+    if not pol:
+        op = _NEG[op]
+    a, b = linear(test.left, atoms), linear(test.comparators[0], atoms)
+    if a is None or b is None:
+        return None
+    d = {k: a[0][k] - b[0][k] for k in atoms}, a[1] - b[1]  # left - right
+    if op in (ast.Lt, ast.LtE):  # left - right <= 0  ->  right - left >= 0
+        d = {k: -x for k, x in d[0].items()}, -d[1]
+    return d
+
+
+def bound_args(fi, args, kwargs, skip_self=False):
+    """Parameter name -> abstract value for a recorded call (positional, keyword and **mapping arguments resolved)."""
+    a = fi.node.args
+    params = [x.arg for x in a.posonlyargs + a.args]
+    if skip_self or (fi.cls is not None and not fi.is_staticmethod and params):
+        params = params[1:]
+    out = {}
+    pos = list(args or [])
+    kw = dict(kwargs or {})
+    star = kw.pop('**', None)
+    for p in params + [x.arg for x in a.kwonlyargs]:
+        if pos and p in params:
+            out[p] = pos.pop(0)
+        elif p in kw:
+            out[p] = kw[p]
+        elif star is not None and star.kw and p in star.kw:
+            out[p] = star.kw[p]
+    return out
